@@ -8,6 +8,7 @@ verus! {
 //@include ../frag/tree.tpl
 //@include ../frag/unstable.tpl
 //@include ../frag/state.tpl
+//@include ../frag/endpoints.tpl
 
 proof fn vp_canary_axioms()
     ensures false,
